@@ -67,6 +67,7 @@ type StatusCall struct {
 type DataPlan struct {
 	Sizes  []int
 	Stop   int64 // -1: read until the reader ends
+	Retry  int   // keep reading after up to Retry reads that failed with a transport error (retry.go)
 	Ret    BErr
 	Prop   bool
 	Panic  bool
@@ -134,7 +135,7 @@ func (s Script) Sx() *Sx {
 	}
 	d := L()
 	for _, p := range s.Data {
-		d.Add(p.Sx())
+		d.Add(p.sxFull())
 	}
 	a := L()
 	for _, p := range s.Auth {
@@ -377,6 +378,7 @@ func (s *recSession) popPlan() DataPlan {
 func (s *recSession) deliver(r io.Reader, status smtp.StatusCollector) (ret error) {
 	p := s.popPlan()
 	_, isPipe := r.(*io.PipeReader)
+	r = withRetry(r, p.Retry)
 	s.b.wg.Add(1)
 	defer s.b.wg.Done()
 	s.b.mu.Lock()
